@@ -259,7 +259,7 @@ theorem type_soundness (chunk : List Col) (n : Nat) (e : KExpr) :
             cases ca with
             | int w x =>
               simp only [Col.neg] at hE
-              cases hk : unaryOp (negW w) x <;> simp only [hk] at hE <;> cases hE
+              cases hk : tryUnaryOp 0 (negW w) x <;> simp only [hk] at hE <;> cases hE
               rfl
             | null k => simp [Col.neg] at hE
             | bool x => simp [Col.neg] at hE
